@@ -10,7 +10,9 @@ Correspondence (real code vs Lean model, Model/Export.lean):
     `plot_marginal_quantiles`: arrays handed to matplotlib vs `linspaceEnd` + `curve` over an oracle
     TABLE of the real leaf (pdf / dependence function / icdf evaluated by direct calls)
   * `read_ec_benchmark_dataset` on synthetic files vs `readBenchmark`          (every row, in order)
-Oracle: the clauses of the property as Python predicates on the real code's own output.
+Oracle: the clauses of the property as Python predicates on the real code's own output. Oracle only (no model): drawing
+into the supplied (non-current) / a new axes, returned design conditions, axis labels and par_rename, isodensity legend
+labels and automatic levels, column dtypes of the reader, the reader's default path (shipped dataset A).
 """
 import locale
 import math
@@ -234,6 +236,8 @@ def save_cases(rng, seed, n_cases, start):
             "kind": "save", "gen": [seed, start + i], "n_rows": n_rows, "n_dim": n_dim,
             "flavour": str(rng.choice(FLAVOURS)), "semantics": gen_semantics(rng, n_dim),
             "path": gen_path(rng), "contour": "stub",
+            "call": ["positional", "omit", "keyword"][i % 3], "overwrite": i % 7 == 3,
+            "path_type": "pathlib" if i % 11 == 5 else "str",
         }
 
 
@@ -242,6 +246,8 @@ def path_cases(rng, seed, n_cases, start):
         yield {
             "kind": "save", "gen": [seed, start + i], "n_rows": 1, "n_dim": 2, "flavour": "decades",
             "semantics": None, "path": gen_path(rng), "contour": "stub", "focus": "path",
+            "call": ["positional", "omit", "keyword"][i % 3], "overwrite": i % 5 == 2,
+            "path_type": "pathlib" if i % 4 == 1 else "str",
         }
 
 
@@ -279,6 +285,9 @@ def real_contours():
         ]
         m3 = vc.GlobalHierarchicalModel(dd)
         out["IFORM3D"] = (vc.IFORMContour(m3, 0.01, n_points=12), None)
+        sem3 = {"names": ["Wave height", "Wave period", "Wind speed"], "symbols": ["H_s", "T_z", "V"], "units": ["m", "s", "m/s"]}
+        out["ISORM3D"] = (vc.ISORMContour(m3, 0.01, n_points=10), sem3)
+        out["HDC3D"] = (vc.HighestDensityContour(m3, 0.05, limits=[(0, 12), (0, 12), (0, 30)], deltas=[0.5, 0.5, 1.0]), sem3)
     _REAL = out
     return out
 
@@ -291,40 +300,66 @@ class Stub:
 
 
 def real_save_cases():
-    for name in ["IFORM", "ISORM", "HDC", "DirectSampling", "And", "Or", "IFORM3D"]:
+    k = 0
+    for name in ["IFORM", "ISORM", "HDC", "DirectSampling", "And", "Or", "IFORM3D", "ISORM3D", "HDC3D"]:
         for with_sem in (False, True):
+            k += 1
             yield {"kind": "save", "contour": name, "with_sem": with_sem,
-                   "path": "out/" + name + ("" if with_sem else ".txt"), "gen": "real"}
+                   "path": "out/" + name + ("" if with_sem else ".txt"), "gen": "real",
+                   "call": ["positional", "omit", "keyword"][k % 3], "overwrite": k % 4 == 0,
+                   "path_type": "pathlib" if (k % 5 == 0 and not with_sem) else "str"}
 
 
 # ---------------------------------------------------------------------------
 # save_contour_coordinates: implementation run, oracle, model
 
 
-def run_save_impl(contour, semantics, relpath):
+JUNK = "stale; content of an earlier file\n" * 40
+
+
+def run_save_impl(contour, semantics, relpath, call="positional", overwrite=False, path_type="str"):
+    """call: 'positional' (contour, path, semantics) / 'omit' (no semantics argument when it is None) / 'keyword';
+    overwrite: a longer file with other content already exists at the target; path_type 'pathlib': a pathlib.Path is
+    passed (only when str(Path(p)) == p, i.e. pathlib does not normalise the path)"""
+    import pathlib
+
     from virocon import save_contour_coordinates
 
     tmp = tempfile.mkdtemp(prefix="c20-", dir=TMP_ROOT)
     try:
         full = tmp + "/" + relpath
         os.makedirs(os.path.dirname(full) or tmp, exist_ok=True)
-        before = set()
+        target = full if has_extension(full) else full + ".txt"
+        if overwrite and not os.path.isdir(target):
+            with open(target, "w", encoding="utf-8") as f:
+                f.write(JUNK)
+        before = {}
         for root, _, files in os.walk(tmp):
             for f in files:
-                before.add(os.path.join(root, f))
+                before[os.path.join(root, f)] = open(os.path.join(root, f), "rb").read()
+        arg = full
+        used_pathlib = False
+        if path_type == "pathlib" and str(pathlib.Path(full)) == full:
+            arg = pathlib.Path(full)
+            used_pathlib = True
         try:
             with warnings.catch_warnings():
                 warnings.simplefilter("ignore")
-                save_contour_coordinates(contour, full, semantics)
+                if call == "omit" and semantics is None:
+                    save_contour_coordinates(contour, arg)
+                elif call == "keyword":
+                    save_contour_coordinates(contour=contour, file_path=arg, semantics=semantics)
+                else:
+                    save_contour_coordinates(contour, arg, semantics)
         except Exception as e:  # noqa: BLE001
-            return {"err": type(e).__name__, "msg": str(e)[:200], "full": full}
+            return {"err": type(e).__name__, "msg": str(e)[:200], "full": full, "pathlib": used_pathlib}
         new = []
         for root, _, files in os.walk(tmp):
             for f in files:
                 p = os.path.join(root, f)
-                if p not in before:
+                if p not in before or open(p, "rb").read() != before[p]:
                     new.append(p)
-        out = {"full": full, "files": sorted(new)}
+        out = {"full": full, "files": sorted(new), "pathlib": used_pathlib}
         if len(new) == 1:
             raw = open(new[0], "rb").read()
             out["text"] = raw.decode(locale.getpreferredencoding(False))
@@ -338,6 +373,12 @@ def run_save_impl(contour, semantics, relpath):
         return out
     finally:
         shutil.rmtree(tmp, ignore_errors=True)
+
+
+def pathlib_no_ext_refused(impl):
+    """a pathlib.Path WITHOUT extension: the documented type of file_path is str, `file_path += ".txt"` raises TypeError
+    for a Path. Outside the documented input domain: accepted and counted, not asserted."""
+    return impl.get("pathlib") and impl.get("err") == "TypeError" and not has_extension(impl["full"])
 
 
 def expected_header(semantics, n_dim):
@@ -355,6 +396,8 @@ def oracle_save(coords, semantics, impl):
     hdr = expected_header(semantics, n_dim)
     if "err" in impl:
         if hdr is None and impl["err"] == "IndexError":
+            return bad
+        if pathlib_no_ext_refused(impl):
             return bad
         bad.append(("save_raises", f"{impl['err']}: {impl.get('msg')}"))
         return bad
@@ -445,7 +488,8 @@ def process_save(ck, cases):
         else:
             coords, semantics, relpath = materialize_save(case)
             contour = Stub(coords)
-        impl = run_save_impl(contour, semantics, relpath)
+        impl = run_save_impl(contour, semantics, relpath, case.get("call", "positional"), bool(case.get("overwrite")),
+                             case.get("path_type", "str"))
         ml = save_model_lines(coords, semantics, impl["full"])
         extra = 0
         if "text" in impl and "loadtxt" in impl and "\n" not in (expected_header(semantics, coords.shape[1]) or "\n"):
@@ -464,6 +508,13 @@ def process_save(ck, cases):
         ck.count("save:path_has_ext=%s" % has_extension(impl["full"]))
         if case.get("flavour"):
             ck.count("save:values=" + case["flavour"])
+        ck.count("save:call=" + (case.get("call", "positional") if not (case.get("call") == "omit" and semantics is not None)
+                                 else "positional"))
+        if case.get("overwrite"):
+            ck.count("save:target_exists_before(overwritten)")
+        if impl.get("pathlib"):
+            ck.count("save:path=pathlib.Path," + ("ext" if has_extension(impl["full"]) else
+                                                  ("no_ext:TypeError(str documented)" if pathlib_no_ext_refused(impl) else "no_ext:accepted")))
         bad = oracle_save(coords, semantics, impl)
         for pred, detail in bad:
             ck.fail({"entry": "save_contour_coordinates", "predicate": pred}, case, detail)
@@ -472,7 +523,9 @@ def process_save(ck, cases):
             ck.count("save:header_with_newline(not one line)")
         div = None
         m_txt, m_path = ans[p], ans[p + 1]
-        if m_txt.startswith("ERR"):
+        if pathlib_no_ext_refused(impl):
+            pass
+        elif m_txt.startswith("ERR"):
             if "err" not in impl or impl["err"] != "IndexError":
                 div = f"model {m_txt} impl {impl.get('err', 'wrote file')}"
             else:
@@ -564,34 +617,56 @@ def label_of(sem, i):
     return f"{sem['names'][i]}," + r" $\it{" + f"{sem['symbols'][i]}" + r"}$" + f" ({sem['units'][i]})"
 
 
-def run_plot_impl(contour, sample, dc, semantics, swap):
+def run_plot_impl(contour, sample, dc, semantics, swap, ax_mode="left"):
+    """ax_mode 'left': the caller supplies an axes that is NOT pyplot's current axes (left panel of a two-panel figure,
+    the right panel is current); 'none': ax=None, the function creates its own figure (a decoy figure is current before
+    the call and must stay untouched); 'current': the supplied axes is pyplot's current axes"""
     import matplotlib.pyplot as plt
     from virocon import plot_2D_contour
 
-    fig, ax = plt.subplots()
+    plt.close("all")
+    if ax_mode == "none":
+        _, other = plt.subplots()
+        ax = None
+    elif ax_mode == "current":
+        _, ax = plt.subplots()
+        other = None
+    else:
+        _, (ax, other) = plt.subplots(1, 2)
     try:
         try:
             with warnings.catch_warnings():
                 warnings.simplefilter("ignore")
-                ret = plot_2D_contour(contour, sample=sample, design_conditions=dc, semantics=semantics,
-                                      swap_axis=swap, ax=ax)
+                if ax is None:
+                    ret = plot_2D_contour(contour, sample=sample, design_conditions=dc, semantics=semantics, swap_axis=swap)
+                else:
+                    ret = plot_2D_contour(contour, sample=sample, design_conditions=dc, semantics=semantics,
+                                          swap_axis=swap, ax=ax)
         except Exception as e:  # noqa: BLE001
             return {"err": type(e).__name__, "msg": str(e)[:200]}
+        rax = ret[0] if isinstance(ret, tuple) else ret
+        if not (hasattr(rax, "lines") and hasattr(rax, "collections")):
+            return {"err": "NoAxesReturned", "msg": f"returned {type(rax).__name__} instead of a matplotlib axes"}
         out = {
             "lines": [np.c_[np.asarray(l.get_xdata(orig=False), dtype=float),
-                            np.asarray(l.get_ydata(orig=False), dtype=float)] for l in ax.lines],
-            "colls": [np.asarray(np.ma.getdata(c.get_offsets()), dtype=float).reshape(-1, 2) for c in ax.collections],
-            "xlabel": ax.get_xlabel(), "ylabel": ax.get_ylabel(),
+                            np.asarray(l.get_ydata(orig=False), dtype=float)] for l in rax.lines],
+            "colls": [np.asarray(np.ma.getdata(c.get_offsets()), dtype=float).reshape(-1, 2) for c in rax.collections],
+            "xlabel": rax.get_xlabel(), "ylabel": rax.get_ylabel(),
             "ret_tuple": isinstance(ret, tuple),
+            "ax_mode": ax_mode,
+            # artists that ended up in an axes the function was not asked to draw into
+            "stray": 0 if other is None else len(other.lines) + len(other.collections),
+            "stray_labels": "" if other is None else other.get_xlabel() + other.get_ylabel(),
         }
+        out["ret_ax_ok"] = (rax is ax) if ax is not None else (rax is not other)
         if isinstance(ret, tuple):
-            out["ret_dc"] = ret[1]
-            out["ret_ax_ok"] = ret[0] is ax
-        else:
-            out["ret_ax_ok"] = ret is ax
+            try:
+                out["ret_dc"] = None if isinstance(ret[1], (bool, type(None))) else np.asarray(ret[1], dtype=float)
+            except Exception:  # noqa: BLE001
+                out["ret_dc"] = "unreadable"
         return out
     finally:
-        plt.close(fig)
+        plt.close("all")
 
 
 def oracle_plot(case, contour, coords, sample, dc, semantics, swap, impl):
@@ -645,7 +720,20 @@ def oracle_plot(case, contour, coords, sample, dc, semantics, swap, impl):
     if impl["xlabel"] != label_of(sem, xi) or impl["ylabel"] != label_of(sem, yi):
         bad.append(("axis_labels_swap_iff", f"xlabel {impl['xlabel']!r} ylabel {impl['ylabel']!r}"))
     if not impl["ret_ax_ok"]:
-        bad.append(("returns_axes", "returned axes object is not the one plotted into"))
+        bad.append(("returns_axes", "returned axes object is not the one plotted into" if impl["ax_mode"] != "none"
+                    else "ax=None: drew into an axes that existed before the call instead of a new figure"))
+    if impl["stray"] or impl["stray_labels"]:
+        bad.append(("draws_into_given_axes",
+                    f"ax_mode={impl['ax_mode']}: {impl['stray']} artist(s) / labels {impl['stray_labels']!r} ended up in "
+                    "another axes (pyplot's current one) than the one supplied / returned"))
+    # returned design conditions (when the function returns them): the ones that were drawn
+    if impl["ret_tuple"] and impl.get("ret_dc") is not None and (dc is True or isinstance(dc, np.ndarray)):
+        want_dc = dflt if dc is True else dc
+        got_dc = impl["ret_dc"]
+        if isinstance(got_dc, str) or not same_vals(np.asarray(got_dc, dtype=float).reshape(-1, 2), want_dc):
+            bad.append(("returned_design_conditions_are_the_drawn_ones",
+                        f"swap_axis={swap}: returned {np.asarray(got_dc).tolist()[:3] if not isinstance(got_dc, str) else got_dc}… "
+                        f"drawn / expected {np.asarray(want_dc).tolist()[:3]}…"))
     return bad, dflt
 
 
@@ -654,7 +742,7 @@ def process_plot(ck, cases):
     for case in cases:
         contour, coords, sample, dc, semantics = materialize_plot(case)
         swap = bool(case["swap"])
-        impl = run_plot_impl(contour, sample, dc, semantics, swap)
+        impl = run_plot_impl(contour, sample, dc, semantics, swap, case.get("ax_mode", "left"))
         bad, dflt = oracle_plot(case, contour, coords, sample, dc, semantics, swap, impl)
         p = len(lines)
         lines.append(["RUN", "polyline", "1" if swap else "0"] + fl(coords.ravel()))
@@ -672,6 +760,11 @@ def process_plot(ck, cases):
         ck.count("plot2d:design_conditions=" + (case["dc"] if case["dc"] in ("none", "true", "false") else "array"))
         ck.count("plot2d:sample=" + ("none" if sample is None else case.get("sample_type", "array")))
         ck.count("plot2d:contour=" + case.get("contour", "stub"))
+        ck.count("plot2d:ax=" + {"left": "given(not current)", "none": "None", "current": "given(current)"}[case.get("ax_mode", "left")])
+        if isinstance(dc, np.ndarray) and len(dc) == 0:
+            ck.count("plot2d:design_conditions=empty_array")
+        if impl.get("ret_tuple") and impl.get("ret_dc") is not None and (dc is True or isinstance(dc, np.ndarray)):
+            ck.count("plot2d:returned_design_conditions_checked")
         for pred, detail in bad:
             ck.fail({"entry": "plot_2D_contour", "predicate": pred}, case, detail)
         div = None
@@ -720,7 +813,8 @@ def plot_cases(rng, seed, n_cases, start):
         convex = case["contour"] in ("ellipse", "IFORM", "ISORM")
         case["dc"] = str(rng.choice(["none", "true", "array", "array", "false"] if convex else ["none", "array", "array", "false"]))
         if case["dc"] == "array":
-            case["n_dc"] = int(rng.choice([1, 2, 3, 10]))
+            case["n_dc"] = int(rng.choice([1, 2, 3, 10, 0]))
+        case["ax_mode"] = ["left", "none", "left", "current"][i % 4]
         if rng.integers(0, 3):
             case["n_sample"] = int(rng.choice([1, 2, 10, 500]))
             case["sample_type"] = str(rng.choice(["array", "array", "frame", "list"]))
@@ -874,6 +968,23 @@ def materialize_model(case):
     return model, sample, sem
 
 
+def names_in_label(label, sem, i, lower=False):
+    """the label names variable i (its name and unit; the exact wording is not part of the property)"""
+    name = sem["names"][i].lower() if lower else sem["names"][i]
+    return name in label and sem["units"][i] in label
+
+
+def as_sample_arg(sample, sample_type):
+    """the `sample` argument as an ndarray / a list of rows / a DataFrame (the plot functions convert with np.asarray)"""
+    if sample is None or sample_type == "array":
+        return sample
+    if sample_type == "list":
+        return sample.tolist()
+    import pandas as pd
+
+    return pd.DataFrame(sample, columns=[f"c{j}" for j in range(sample.shape[1])])
+
+
 def curve_check(ck, tables, lines, checks, tag, xs_impl, ys_impl, a, b, num, leaf, what):
     """register: xs must be linspace(a,b,num) (model, bit exact), ys must be leaf(xs) (TABLE of direct call)"""
     with warnings.catch_warnings():
@@ -902,6 +1013,13 @@ def process_models(ck, cases):
             ck.count("models:fit_failed_on_subsample")
             continue
         semantics = sem if case.get("with_sem", True) else None
+        from virocon.plotting import get_default_semantics
+
+        sem_used = semantics if semantics is not None else get_default_semantics(model.n_dim)
+        sample_type = case.get("sample_type", "array")
+        # which optional arguments are used (par_rename, axes=) is a function of the case, so that a replay repeats it
+        variant = int(case.get("variant", case["gen"][1] if isinstance(case.get("gen"), list) else 0))
+        sample_arg = as_sample_arg(sample, sample_type)
         bad = []      # (entry, predicate, detail)
         lines = []    # driver lines
         checks = []   # curve checks in the order of the RUN linspace / RUN curve pairs
@@ -913,12 +1031,15 @@ def process_models(ck, cases):
                 warnings.simplefilter("ignore")
                 # par_rename only changes axis labels; the curves and estimates must be the same with and without it
                 ren = {}
-                if ck.evaluations % 2:
+                if variant % 2:
                     for dist in model.distributions:
                         for par in getattr(dist, "conditional_parameters", {}):
                             ren[par] = "renamed " + par
+                    if variant % 4 == 3 and len(ren) >= 2:
+                        del ren[sorted(ren)[0]]   # only some of the parameters renamed
+                ck.count("models:par_rename=" + ("none" if not ren else "given"))
                 n_par = sum(len(model.distributions[d].conditional_parameters) for d in cond_dims)
-                if ck.evaluations % 3 == 1 and n_par >= 2:
+                if variant % 3 == 1 and n_par >= 2:
                     # axes supplied by the caller: parameter k is drawn into axes[k]
                     _, given = plt.subplots(1, n_par)
                     axes = vc.plot_dependence_functions(model, semantics, par_rename=ren, axes=list(given))
@@ -935,6 +1056,15 @@ def process_models(ck, cases):
                 for par, dep in dist.conditional_parameters.items():
                     ax = axes[k]
                     k += 1
+                    # the abscissa is the conditioning variable, the ordinate the parameter (renamed iff in par_rename)
+                    ci = model.conditional_on[dim]
+                    if not names_in_label(ax.get_xlabel(), sem_used, ci) or sem_used["symbols"][ci] not in ax.get_xlabel():
+                        bad.append(("plot_dependence_functions", "xlabel_names_conditioning_variable",
+                                    f"dim {dim} parameter {par}: xlabel {ax.get_xlabel()!r}, conditioning variable {ci} is "
+                                    f"{sem_used['names'][ci]!r} [{sem_used['symbols'][ci]}] ({sem_used['units'][ci]})"))
+                    if (ax.get_ylabel() != ren[par]) if par in ren else (par not in ax.get_ylabel()):
+                        bad.append(("plot_dependence_functions", "ylabel_parameter_renamed_iff",
+                                    f"dim {dim} parameter {par}: ylabel {ax.get_ylabel()!r}, par_rename {ren!r}"))
                     if len(ax.lines) != 1:
                         bad.append(("plot_dependence_functions", "one_curve_per_axes", f"{len(ax.lines)} lines for {par}"))
                         continue
@@ -964,10 +1094,10 @@ def process_models(ck, cases):
             try:
                 with Recorder() as rec, warnings.catch_warnings():
                     warnings.simplefilter("ignore")
-                    figs, axes_list = vc.plot_histograms_of_interval_distributions(model, sample, semantics)
+                    figs, axes_list = vc.plot_histograms_of_interval_distributions(model, sample_arg, semantics)
                     # plot_pdf=False: the same histograms, no density curve
                     with Recorder() as rec2:
-                        _, axes_nopdf = vc.plot_histograms_of_interval_distributions(model, sample, semantics, plot_pdf=False)
+                        _, axes_nopdf = vc.plot_histograms_of_interval_distributions(model, sample_arg, semantics, plot_pdf=False)
                     flat_np = []
                     for a in axes_nopdf:
                         flat_np += list(a) if isinstance(a, (list, tuple, np.ndarray)) else [a]
@@ -997,6 +1127,9 @@ def process_models(ck, cases):
                         if hx is None or not same_vals(hx, data) or dens.get(id(ax)) is not True:
                             bad.append(("plot_histograms_of_interval_distributions", "histogram_of_interval_data",
                                         f"dim {dim} interval {i}: hist got {None if hx is None else hx.shape} expected {data.shape}"))
+                        if not names_in_label(ax.get_xlabel(), sem_used, dim) or sem_used["symbols"][dim] not in ax.get_xlabel():
+                            bad.append(("plot_histograms_of_interval_distributions", "xlabel_names_variable",
+                                        f"dim {dim} interval {i}: xlabel {ax.get_xlabel()!r}, variable is {sem_used['names'][dim]!r}"))
                         if f"n={len(data)}" not in ax.get_title():
                             bad.append(("plot_histograms_of_interval_distributions", "title_counts_data", ax.get_title()))
                         if len(ax.lines) != 1:
@@ -1014,27 +1147,68 @@ def process_models(ck, cases):
             # -- plot_2D_isodensity -------------------------------------------------------
             for swap in ((False, True) if model.n_dim == 2 else ()):
                 try:
-                    n_grid = int(case.get("n_grid", 24))
+                    # configuration of this call: levels given / automatic, axes None / supplied (not pyplot's current
+                    # one), n_grid_steps given / default (250)
+                    cfg = int(case.get("iso_cfg", 0))
+                    lv_given = (cfg % 2 == 0) != swap
+                    ax_given = (cfg // 2 % 2 == 0) == swap
+                    n_grid = case.get("n_grid", 24)
+                    if n_grid is not None and swap and case.get("n_grid_default_when_swapped"):
+                        n_grid = None
+                    kw = {} if n_grid is None else {"n_grid_steps": int(n_grid)}
+                    n_grid_eff = 250 if n_grid is None else int(n_grid)
                     limits = case.get("limits")
+                    lv = [1e-4, 1e-3, 1e-2] if lv_given else None
+                    ck.count("iso:levels=%s,ax=%s,n_grid=%s,swap=%s" % ("given" if lv_given else "auto", "given" if ax_given else "None",
+                                                                      "default" if n_grid is None else "given", swap))
+                    ck.count("iso:sample=" + sample_type)
+                    plt.close("all")
                     with Recorder() as rec, warnings.catch_warnings():
                         warnings.simplefilter("ignore")
-                        if swap:
+                        if ax_given:
                             # an axes supplied by the caller that is NOT pyplot's current axes (left panel of a
                             # two-panel figure): everything must be drawn into it
-                            _, (ax_given, _ax_other) = plt.subplots(1, 2)
-                            ax = vc.plot_2D_isodensity(model, sample, semantics, swap_axis=swap, limits=limits,
-                                                       n_grid_steps=n_grid, ax=ax_given)
-                            if ax is not ax_given:
+                            _, (ax_given_obj, ax_other) = plt.subplots(1, 2)
+                            ax = vc.plot_2D_isodensity(model, sample_arg, semantics, swap_axis=swap, limits=limits,
+                                                       levels=lv, ax=ax_given_obj, **kw)
+                            if ax is not ax_given_obj:
                                 bad.append(("plot_2D_isodensity", "draws_into_given_axes", "returned axes is not the supplied one"))
                         else:
-                            # explicit density levels: exactly these must be handed to the contour call
-                            lv = [1e-4, 1e-3, 1e-2] if case.get("explicit_levels", True) else None
-                            ax = vc.plot_2D_isodensity(model, sample, semantics, swap_axis=swap, limits=limits,
-                                                       n_grid_steps=n_grid, levels=lv)
-                            if lv is not None and len(rec.contour) == 1:
-                                got_lv = rec.contour[0][2].get("levels")
-                                if got_lv is None or [float(v) for v in got_lv] != lv:
-                                    bad.append(("plot_2D_isodensity", "levels_as_supplied", f"levels {got_lv!r} instead of {lv!r}"))
+                            _, ax_other = plt.subplots()
+                            ax = vc.plot_2D_isodensity(model, sample_arg, semantics, swap_axis=swap, limits=limits,
+                                                       levels=lv, **kw)
+                            if ax is ax_other:
+                                bad.append(("plot_2D_isodensity", "draws_into_given_axes",
+                                            "ax=None: drew into an axes that existed before the call instead of a new figure"))
+                    if ax is not ax_other and (len(ax_other.lines) + len(ax_other.collections) or ax_other.get_legend() is not None
+                                               or ax_other.get_xlabel() or ax_other.get_ylabel()):
+                        bad.append(("plot_2D_isodensity", "draws_into_given_axes",
+                                    f"swap_axis={swap}: artists / legend / labels ended up in another axes than the one supplied / returned"))
+                    if len(rec.contour) == 1:
+                        got_lv = rec.contour[0][2].get("levels")
+                        got_lv = None if got_lv is None else [float(v) for v in np.asarray(got_lv, dtype=float).ravel()]
+                        if lv is not None and got_lv != lv:
+                            bad.append(("plot_2D_isodensity", "levels_as_supplied", f"levels {got_lv!r} instead of {lv!r}"))
+                        if lv is None and (got_lv is None or len(got_lv) == 0 or any(v <= 0 for v in got_lv)
+                                           or any(b <= a for a, b in zip(got_lv, got_lv[1:]))):
+                            bad.append(("plot_2D_isodensity", "automatic_levels_increasing_positive", f"levels {got_lv!r}"))
+                        # the legend says which density each line stands for: label i <-> level i
+                        leg = ax.get_legend()
+                        labels = [t.get_text() for t in leg.get_texts()] if leg is not None else None
+                        if got_lv is not None and labels is not None:
+                            try:
+                                lab_v = [float(t) for t in labels]
+                            except ValueError:
+                                lab_v = None
+                            if lab_v is not None and (len(lab_v) != len(got_lv) or any(
+                                    abs(a - b) > 0.06 * abs(b) for a, b in zip(lab_v, got_lv))):
+                                bad.append(("plot_2D_isodensity", "legend_labels_are_the_levels_drawn",
+                                            f"swap_axis={swap}: legend {labels!r} for levels {got_lv!r}"))
+                            elif lab_v is not None:
+                                ck.count("iso:legend_labels_checked")
+                    if ax.get_xlabel() != label_of(sem_used, 1 if swap else 0) or ax.get_ylabel() != label_of(sem_used, 0 if swap else 1):
+                        bad.append(("plot_2D_isodensity", "axis_labels_swap_iff",
+                                    f"swap_axis={swap}: xlabel {ax.get_xlabel()!r} ylabel {ax.get_ylabel()!r}"))
                     if len(rec.contour) == 1 and rec.contour[0][0] is not ax:
                         bad.append(("plot_2D_isodensity", "draws_into_given_axes",
                                     f"swap_axis={swap}: the isodensity lines were drawn into another axes than the one supplied / returned"))
@@ -1066,7 +1240,9 @@ def process_models(ck, cases):
                             lo1, hi1 = min(sample[:, 0]) - 0.05 * r1, max(sample[:, 0]) + 0.05 * r1
                             lo2, hi2 = min(sample[:, 1]) - 0.05 * r2, max(sample[:, 1]) + 0.05 * r2
                         ok = (np.isclose(v1.min(), lo1) and np.isclose(v1.max(), hi1)
-                              and np.isclose(v2.min(), lo2) and np.isclose(v2.max(), hi2) and Z.shape == (n_grid, n_grid))
+                              and np.isclose(v2.min(), lo2) and np.isclose(v2.max(), hi2)
+                              and (Z.shape == (n_grid_eff, n_grid_eff) if n_grid is not None
+                                   else (Z.ndim == 2 and Z.shape[0] == Z.shape[1] >= 2)))
                         if not ok:
                             bad.append(("plot_2D_isodensity", "grid_covers_limits", f"swap_axis={swap}"))
                         # model: Z is the curve of the pdf leaf over the grid nodes (uninterpreted function of two arguments)
@@ -1084,16 +1260,16 @@ def process_models(ck, cases):
             try:
                 with warnings.catch_warnings():
                     warnings.simplefilter("ignore")
-                    if ck.evaluations % 2:
+                    if (variant // 2) % 2:
                         # axes supplied by the caller (not pyplot's current axes): variable i is drawn into axes[i]
                         _, given = plt.subplots(1, model.n_dim + 1)
                         given = list(given[: model.n_dim])
-                        axes = vc.plot_marginal_quantiles(model, sample, semantics, axes=given)
+                        axes = vc.plot_marginal_quantiles(model, sample_arg, semantics, axes=given)
                         if len(axes) != model.n_dim or any(a is not g for a, g in zip(axes, given)):
                             bad.append(("plot_marginal_quantiles", "draws_into_given_axes", "returned axes are not the supplied ones"))
                         ck.count("models:quantile_axes_supplied")
                     else:
-                        axes = vc.plot_marginal_quantiles(model, sample, semantics)
+                        axes = vc.plot_marginal_quantiles(model, sample_arg, semantics)
                 n = len(sample)
                 osm = sts._morestats._calc_uniform_order_statistic_medians(n)
                 for dim in range(model.n_dim):
@@ -1102,6 +1278,10 @@ def process_models(ck, cases):
                     ys = np.asarray(l0.get_ydata(orig=False), dtype=float)
                     if not same_vals(ys, np.sort(sample[:, dim])):
                         bad.append(("plot_marginal_quantiles", "ordered_sample_values", f"dim {dim}"))
+                    for which, lab in (("xlabel", axes[dim].get_xlabel()), ("ylabel", axes[dim].get_ylabel())):
+                        if not names_in_label(lab, sem_used, dim, lower=True):
+                            bad.append(("plot_marginal_quantiles", "labels_name_variable",
+                                        f"dim {dim}: {which} {lab!r}, variable is {sem_used['names'][dim]!r} ({sem_used['units'][dim]})"))
                     if model.conditional_on[dim] is None:
                         want = np.asarray(model.marginal_icdf(osm, dim), dtype=float)
                         if not same_vals(xs, want):
@@ -1153,14 +1333,15 @@ def model_cases(rng, seed, n_cases, start):
         yield {"kind": "models", "gen": [seed, start + i], "model": names[i % len(names)], "fitted": True,
                "n_sample": int(rng.choice([800, 1500, 3000])), "with_sem": bool(rng.integers(0, 4)),
                "n_grid": int(rng.choice([12, 24, 31])),
-               "limits": None if rng.integers(0, 2) else [[0.0, float(rng.uniform(20, 40))], [0.0, float(rng.uniform(12, 25))]]}
+               "limits": None if rng.integers(0, 2) else [[0.0, float(rng.uniform(20, 40))], [0.0, float(rng.uniform(12, 25))]],
+               "iso_cfg": i % 4, "n_grid_default_when_swapped": i % 3 == 1, "sample_type": ["array", "frame", "list"][i % 3]}
     yield {"kind": "models", "gen": [seed, start + n_cases], "model": "VanemBG", "fitted": False, "with_sem": True}
     yield {"kind": "models", "gen": [seed, start + n_cases + 1], "model": "Chain3D", "fitted": False, "with_sem": True}
     yield {"kind": "models", "gen": [seed, start + n_cases + 3], "model": "Chain3D", "fitted": False, "with_sem": True, "shape": "2+1"}
     yield {"kind": "models", "gen": [seed, start + n_cases + 4], "model": "Chain3D", "fitted": False, "with_sem": bool(rng.integers(0, 2)),
            "shape": "1+2"}
     yield {"kind": "models", "gen": [seed, start + n_cases + 2], "model": "Chain3D", "fitted": True, "with_sem": bool(rng.integers(0, 2)),
-           "n_sample": int(rng.choice([1000, 2000]))}
+           "n_sample": int(rng.choice([1000, 2000])), "sample_type": "frame"}
 
 
 # ---------------------------------------------------------------------------
@@ -1205,9 +1386,10 @@ def materialize_bench(case):
         out.append(sep.join(f))
         if case.get("blank") and i == n // 2:
             out.append("")
-    text = "\n".join(out)
+    eol = case.get("eol", "\n")   # "\r\n": the file as a Windows checkout / editor stores it
+    text = eol.join(out)
     if case["trailing_newline"]:
-        text += "\n"
+        text += eol
     return text
 
 
@@ -1218,16 +1400,30 @@ def bench_cases(rng, seed, n_cases, start, max_rows):
             n = max_rows
         if i == 1:
             n = 1
-        yield {"kind": "bench", "gen": [seed, start + i], "n_rows": n, "n_cols": int(rng.choice([1, 2, 2, 3, 4])),
+        case = {"kind": "bench", "gen": [seed, start + i], "n_rows": n, "n_cols": int(rng.choice([1, 2, 2, 3, 4])),
                "sep": str(rng.choice(["; ", "; ", ";", ";  "])), "order": str(rng.choice(["sorted", "sorted", "shuffled", "dups"])),
                "decimals": int(rng.choice([1, 2, 4, 4, 6])), "flavour": str(rng.choice(["sea", "decades", "ints"])),
                "trailing_newline": bool(rng.integers(0, 4)), "blank": bool(rng.integers(0, 6) == 0),
                "step_h": int(rng.choice([1, 1, 3, 24])), "reread": i % 2 == 1}
+        if i % 6 == 5:
+            case["decimals"] = 0          # whole numbers: pandas makes these int64 columns
+        if i % 5 == 3:
+            case["eol"] = "\r\n"
+        yield case
 
 
-def run_bench_impl(text, reread=False):
+def run_bench_impl(text, reread=False, default_path=False):
     from virocon import read_ec_benchmark_dataset
 
+    if default_path:
+        # no argument: the shipped example dataset A is read (text = that file's content, read independently)
+        try:
+            with warnings.catch_warnings():
+                warnings.simplefilter("ignore")
+                df = read_ec_benchmark_dataset()
+        except Exception as e:  # noqa: BLE001
+            return {"err": type(e).__name__, "msg": str(e)[:200]}
+        return frame_summary(df)
     tmp = tempfile.mkdtemp(prefix="c20-", dir=TMP_ROOT)
     try:
         p = os.path.join(tmp, "bench.txt")
@@ -1256,20 +1452,29 @@ def run_bench_impl(text, reread=False):
                 df = read_ec_benchmark_dataset(p)
         except Exception as e:  # noqa: BLE001
             return {"err": type(e).__name__, "msg": str(e)[:200]}
-        idx = df.index
-        if not str(idx.dtype).startswith("datetime64"):
-            return {"columns": [str(c) for c in df.columns], "index_name": None if idx.name is None else str(idx.name),
-                    "n": len(df), "stamps": np.zeros((len(df), 4), dtype=int) - 1, "sub_hour": False,
-                    "values": np.zeros((len(df), len(df.columns))) * np.nan, "is_datetime": False}
-        return {
-            "columns": [str(c) for c in df.columns], "index_name": None if idx.name is None else str(idx.name),
-            "n": len(df), "stamps": np.c_[idx.year, idx.month, idx.day, idx.hour].astype(int),
-            "sub_hour": bool(np.any(idx.minute != 0) or np.any(idx.second != 0)),
-            "values": np.asarray(df.values, dtype=float).reshape(len(df), len(df.columns)),
-            "is_datetime": str(idx.dtype).startswith("datetime64"),
-        }
+        return frame_summary(df)
     finally:
         shutil.rmtree(tmp, ignore_errors=True)
+
+
+def frame_summary(df):
+    idx = df.index
+    cols = [str(c) for c in df.columns]
+    kinds = [str(getattr(df[c], "dtype", "?")) if list(df.columns).count(c) == 1 else "?" for c in df.columns]
+    try:
+        values = np.asarray(df.values, dtype=float).reshape(len(df), len(cols))
+    except Exception:  # noqa: BLE001  (e.g. text columns that are not numbers)
+        values = np.zeros((len(df), len(cols))) * np.nan
+    if not str(idx.dtype).startswith("datetime64"):
+        return {"columns": cols, "index_name": None if idx.name is None else str(idx.name),
+                "n": len(df), "stamps": np.zeros((len(df), 4), dtype=int) - 1, "sub_hour": False,
+                "values": np.zeros((len(df), len(cols))) * np.nan, "is_datetime": False, "dtypes": kinds}
+    return {
+        "columns": cols, "index_name": None if idx.name is None else str(idx.name),
+        "n": len(df), "stamps": np.c_[idx.year, idx.month, idx.day, idx.hour].astype(int),
+        "sub_hour": bool(np.any(idx.minute != 0) or np.any(idx.second != 0)),
+        "values": values, "is_datetime": True, "dtypes": kinds,
+    }
 
 
 def near(a, b):
@@ -1283,7 +1488,7 @@ def oracle_bench(text, impl):
     import datetime as dt
 
     bad = []
-    lines = [l for l in text.split("\n") if l != ""]
+    lines = [l for l in text.replace("\r\n", "\n").split("\n") if l != ""]
     hdr = [f.lstrip(" ") for f in lines[0].split(";")]
     rows = [[f.lstrip(" ") for f in l.split(";")] for l in lines[1:]]
     try:
@@ -1303,6 +1508,8 @@ def oracle_bench(text, impl):
         return bad
     if impl["columns"] != hdr[1:] or impl["index_name"] != hdr[0]:
         bad.append(("column_names", f"columns {impl['columns']} index {impl['index_name']!r}, header {hdr}"))
+    if any(k != "?" and not k.startswith(("float", "int", "uint")) for k in impl.get("dtypes", [])):
+        bad.append(("values_numeric", f"column dtypes {impl['dtypes']} for a file whose value fields are all decimal numbers"))
     if not impl["is_datetime"] or impl["sub_hour"]:
         bad.append(("time_stamp_index", "index is not a whole-hour datetime index"))
     want = np.array([[t.year, t.month, t.day, t.hour] for t in stamps], dtype=int).reshape(len(rows), 4)
@@ -1320,20 +1527,36 @@ def oracle_bench(text, impl):
 def process_bench(ck, cases):
     lines, recs = [], []
     for case in cases:
+        if case.get("default_path"):
+            p = os.path.join(REPO, "datasets", case["file"])
+            if not (os.path.exists(p) and os.path.getsize(p) > 0):
+                ck.case(case, nontrivial=False)
+                ck.fail({"entry": "read_ec_benchmark_dataset", "predicate": "default_dataset_shipped"}, case,
+                        f"datasets/{case['file']} (the default of read_ec_benchmark_dataset) is missing or empty")
+                continue
         text = materialize_bench(case)
-        impl = run_bench_impl(text, reread=bool(case.get("reread")))
+        impl = run_bench_impl(text, reread=bool(case.get("reread")), default_path=bool(case.get("default_path")))
         bad = oracle_bench(text, impl)
         recs.append((case, text, impl, bad))
         lines.append(["RUN", "readbench", stok(text)])
     ans = ck.driver.run(lines) if lines else []
     for (case, text, impl, bad), a in zip(recs, ans):
-        n_lines = len([l for l in text.split("\n") if l])
+        n_lines = len([l for l in text.replace("\r\n", "\n").split("\n") if l])
+        if "\r\n" in text:
+            ck.count("bench:line_ends=CRLF")
+        if case.get("decimals") == 0:
+            ck.count("bench:whole_number_columns")
+        if "dtypes" in impl:
+            for k in set(impl["dtypes"]):
+                ck.count("bench:column_dtype=" + k)
         ck.case(case, nontrivial=n_lines >= 3)
         ck.count("bench:rows<=%d" % (10 ** len(str(max(0, n_lines - 2)))))
         if "order" in case:
             ck.count("bench:order=" + case["order"])
         if case.get("reread"):
             ck.count("bench:path_read_before_with_other_content")
+        if case.get("default_path"):
+            ck.count("bench:default_path(no argument, shipped dataset A)")
         for pred, detail in bad:
             ck.fail({"entry": "read_ec_benchmark_dataset", "predicate": pred}, case, detail)
         div = None
@@ -1400,6 +1623,8 @@ def corpus():
         {"kind": "plot2d", "gen": "corpus", "coords": tri, "swap": True, "dc": "none", "n_sample": 3, "contour": "stub"},
         {"kind": "plot2d", "gen": "corpus", "coords": [], "swap": False, "dc": "none", "contour": "stub"},
         {"kind": "plot2d", "gen": [0, 1], "contour": "IFORM", "swap": True, "dc": "true"},
+        {"kind": "plot2d", "gen": [0, 1], "contour": "IFORM", "swap": True, "dc": "true", "ax_mode": "none", "n_sample": 4},
+        {"kind": "plot2d", "gen": "corpus", "coords": tri, "swap": False, "dc": "array", "dc_pts": [], "ax_mode": "none", "contour": "stub"},
     ] + [
         # every contour class (OrContour used to store an object array that matplotlib refused)
         {"kind": "plot2d", "gen": [0, 2 + i], "contour": name, "swap": bool(i % 2), "dc": "none", "n_sample": 10}
@@ -1410,6 +1635,7 @@ def corpus():
          "text": "time (YYYY-MM-DD-HH); significant wave height (m); zero-up-crossing period (s)\n"
                  "1996-01-01-00; 0.2845; 4.7252\n1996-01-01-01; 0.2774; 4.6210\n1995-12-31-23; 0.3062; 4.1545\n"},
         {"kind": "bench", "gen": "corpus", "text": "t; a\n2000-02-29-23; 1.5\n2000-02-29-23; -0.25"},
+        {"kind": "bench", "gen": "corpus", "text": "t; a; b\r\n2001-03-04-05; 1.5; 2\r\n\r\n2001-03-04-04; -0.25; 3\r\n"},
         {"kind": "bench", "gen": "corpus", "text": "t; a\n1997-02-29-00; 1.5\n"},
         {"kind": "bench", "gen": "corpus", "text": "t; a\n1997-02-28-24; 1.5\n"},
         {"kind": "bench", "gen": "corpus", "text": "t; a\n1997-13-01-00; 1.5\n"},
@@ -1445,11 +1671,15 @@ def main(ck):
         "defect #13, invalid time stamps); then random cases regenerated from (seed, index): save_contour_coordinates on "
         "2-D/3-D (also 1-D/4-D) coordinate arrays of 0..2000 rows (magnitudes 1e-7..1e7 of either sign, exact ties and their "
         "float neighbours, zeros, non-finite) x default/given semantics (unicode, ';', too short) x paths with/without "
-        "extension, dotted directories, hidden files, plus contours of every class; plot_2D_contour on real / elliptic / "
-        "arbitrary contours x swap_axis x design_conditions None/True/False/array x sample none/array/DataFrame/list; the "
-        "other plot functions on three predefined models fitted to random subsamples of the shipped 1-year datasets; "
-        "read_ec_benchmark_dataset on synthetic files of 1..1e4 rows (sorted / shuffled / duplicated stamps, 1-4 value "
-        "columns). Non-trivial: save with >= 2 rows, >= 2 columns, finite values (or a path-rule case); plot with >= 3 "
+        "extension, dotted directories, hidden files (str or pathlib.Path), target file existing before or not, semantics "
+        "positional / omitted / keyword, plus contours of every class (2-D) and IFORM/ISORM/HDC in 3-D; plot_2D_contour on "
+        "real / elliptic / arbitrary contours x swap_axis x design_conditions None/True/False/array (also empty) x sample "
+        "none/array/DataFrame/list x ax None / supplied-but-not-current / supplied-and-current; the other plot functions on "
+        "three predefined models fitted to random subsamples of the shipped 1-year datasets (sample passed as array / "
+        "DataFrame / list; isodensity with levels given/automatic x ax None/supplied x n_grid_steps given/default; "
+        "par_rename none/all/some; axes supplied or not); read_ec_benchmark_dataset on synthetic files of 1..1e4 rows "
+        "(sorted / shuffled / duplicated stamps, 1-4 value columns, 0-6 decimals, LF / CRLF line ends) and, without a path "
+        "argument, on the shipped dataset A. Non-trivial: save with >= 2 rows, >= 2 columns, finite values (or a path-rule case); plot with >= 3 "
         "contour points; fitted model with a conditional dimension; file with >= 2 data rows. Distinct by SHA1 of the case."
     )
     ck.assumptions = [
@@ -1458,9 +1688,18 @@ def main(ck):
         "Axes.hist / Axes.contour arguments are observed through recording wrappers installed in the harness process",
         "theoretical quantiles of conditional dimensions in plot_marginal_quantiles come from an unseeded Monte-Carlo sample: only order and length are checked there",
     ]
+    ck.assumptions += [
+        "a pathlib.Path without extension is refused by save_contour_coordinates (TypeError; file_path is documented as str): counted, not asserted",
+        "CRLF files: the model drops a '\\r' directly in front of '\\n' (normalizeEol) before parsing; lone '\\r' are not generated",
+    ]
     ck.partial = {
         "other plot functions": "that the arrays handed to matplotlib are `curve leaf (linspace …)` is observed per run "
                                 "(leaf = direct call of pdf / dependence function); the Lean theorem curve_values is about the model curve only",
+        "histogram data / QQ ordinates / interval estimates": "compared per run with the interval data, the sorted sample and "
+                                                              "parameters_per_interval; no Lean theorem",
+        "labels, legend, returned values": "axis labels (variable named iff it is the one drawn, par_rename), isodensity legend "
+                                           "label i = level i, automatic levels increasing, returned design conditions = drawn "
+                                           "ones, drawing into the supplied / a new axes: oracle per run only, no model",
     }
     save_c, plot_c, bench_c = corpus()
     run_cases(ck, save_c + plot_c + bench_c)
@@ -1478,6 +1717,8 @@ def main(ck):
         p = os.path.join(REPO, "datasets", fn)
         if os.path.exists(p) and os.path.getsize(p) > 0:
             process_bench(ck, [{"kind": "bench", "gen": "repo-file", "file": fn}])
+    # no path argument: the shipped example dataset A (82805 rows) is read
+    process_bench(ck, [{"kind": "bench", "gen": "repo-file", "file": "ec-benchmark_dataset_A.txt", "default_path": True}])
     ck.extra["exhaustive"] = False
 
 
